@@ -446,8 +446,13 @@ func oneCase(run *harness.Run, d *driver, key string, idx int, r *rand.Rand, cc 
 			u = g.arbitrary()
 		case x < 14:
 			u = g.nearMissSame()
-		case x < 16:
+		case x < 15:
 			u = g.single(true)
+		case x < 16:
+			var first *unit
+			first, u = g.shapePair()
+			w.add(first, &buf)
+			noise(r, &buf)
 		case x < 19 && cc.Filter:
 			u = g.reduced()
 		case cc.Filter:
